@@ -1,7 +1,7 @@
 //@ tu: libxcm/ctl/ctl.c
 //@ enforce-rec: ctl_process
 //@ replace: process_client remove_client accept_client
-//@ unwindset: ctl_process.0:3
+//@ pre-unwind: ctl_process.0:3
 //@ flags: --object-bits 10
 //@ props: C14
 //@ expect: postcondition>=3 canary=3
@@ -12,7 +12,7 @@ void harness(void)
     xv_ctl_ghost_havoc();
     xv_ctl_g_foreign = nondet_bool(); xv_ctl_g_fev = nondet_int();
     struct ctl *ctl;
-    long c0 = xv_ctl_close_calls, r0 = xv_ctl_readable_calls;
+    unsigned long c0 = xv_ctl_close_calls, r0 = xv_ctl_readable_calls;
     ctl_process(ctl);
     if (xv_ctl_close_calls == c0 && xv_ctl_readable_calls == r0) XV_CANARY("two busy sessions, nobody accepted");
     if (xv_ctl_close_calls == c0 && xv_ctl_readable_calls != r0) XV_CANARY("room in the table: listening descriptor polled");
